@@ -152,13 +152,15 @@ def build_harness(name, defs=None, extra_srcs=()):
     if lib is None:
         return None, err
     src = os.path.join(ROOT, 'harness', name + '.cpp')
-    hh = file_hash(src, *sorted(glob.glob(os.path.join(ROOT, 'harness', '*.h'))))  # every shared header: a stale harness is worse than a rebuild
+    # further translation units of the harness (plugin HARNESS_EXTRA entries ending in .cpp), e.g. a second TU with its own internal-linkage types
+    more = [os.path.join(ROOT, 'harness', x) for x in extra_srcs if x.endswith('.cpp')]
+    hh = file_hash(src, *(more + sorted(glob.glob(os.path.join(ROOT, 'harness', '*.h')))))  # every shared header: a stale harness is worse than a rebuild
     exe = os.path.join(os.path.dirname(lib), '%s-%s' % (name, hh))
     with Lock('impl'):
         if os.path.exists(exe):
             return exe, None
         dflags = ['-D%s=%s' % kv for kv in (defs or {}).items()]
-        rc, out, err = sh([CXX] + CXXFLAGS + dflags + ['-I', REPO, '-I', os.path.join(ROOT, 'harness'), src, lib, '-o', exe], timeout=900)
+        rc, out, err = sh([CXX] + CXXFLAGS + dflags + ['-I', REPO, '-I', os.path.join(ROOT, 'harness'), src] + more + [lib, '-o', exe], timeout=900)
         if rc != 0:
             return None, err[-6000:]
         return exe, None
